@@ -28,7 +28,7 @@ var (
 	c18Shapes    = [][]int{{3}, {1, 1, 1}, {2, 2}, {4, 4}, {5, 5}, {2, 2, 2, 2, 2}, {4, 4, 3}, {4, 4, 4}, rowsOf(19, 2), rowsOf(20, 2), append(rowsOf(20, 1), 2, 2)}
 	c18ShapeName = []string{"1x3", "3x1", "2x2", "2x4", "2x5", "5x2(10 cells)", "ragged 4+4+3(11 cells)", "3x4", "19x2", "20x2", "ragged 20x1 then 2x2"}
 	c18Header    = []string{"none", "caption", "thead", "tfoot", "colgroup", "col", "th", "th-column", "th-row-empty-corner"}
-	c18Cell      = []string{"none", "abbr-attr", "headers-attr", "scope-attr", "lone-abbr-child", "scope-attr-without-value", "abbr-attr-empty"}
+	c18Cell      = []string{"none", "abbr-attr", "headers-attr", "scope-attr", "lone-abbr-child", "scope-attr-without-value", "abbr-attr-empty", "lone-abbr-child-with-text"}
 	c18Summary   = []string{"no", "yes", "yes-empty"}
 	c18Object    = []string{"none", "embed", "object", "applet", "iframe"}
 )
@@ -199,7 +199,9 @@ func (v c18Vec) renderTableWith(prefix, id string) string {
 			switch {
 			case first && c18Cell[v.Cell] == "lone-abbr-child":
 				b.WriteString("<abbr>" + word() + "</abbr>")
-			case last && (v.Nested != 0 || v.Object != 0) && !(first && c18Cell[v.Cell] == "lone-abbr-child"):
+			case first && c18Cell[v.Cell] == "lone-abbr-child-with-text":
+				b.WriteString("\n  <abbr>" + word() + "</abbr> (" + word() + ")\n") // the only child *element*; text beside it does not count
+			case last && (v.Nested != 0 || v.Object != 0) && !(first && strings.HasPrefix(c18Cell[v.Cell], "lone-abbr-child")):
 				b.WriteString(word())
 				switch v.Nested {
 				case 1:
